@@ -56,6 +56,28 @@ pub(super) fn classification_3() { classification::<3>(); }
 #[kani::unwind(8)]
 pub(super) fn classification_5() { classification::<5>(); }
 
+// the two views of "negative number" agree: ShortFlags::is_negative_number (asked before any flag is read, as its rustdoc says)
+// and ParsedArg::is_negative_number — also for arguments with a non-UTF-8 tail
+fn negative_number_views_agree<const N: usize>() {
+    let buf: [u8; N] = kani::any();
+    let (os, len) = any_os(&buf);
+    let arg = ParsedArg::new(os);
+    match arg.to_short() {
+        Some(sf) => { assert!(sf.is_negative_number() == arg.is_negative_number()); }
+        None => { assert!(!arg.is_negative_number()); }
+    }
+    kani::cover!(arg.is_negative_number());
+    kani::cover!(arg.is_short() && !arg.is_negative_number() && len == N);
+}
+
+#[kani::proof]
+#[kani::unwind(6)]
+pub(super) fn negative_number_views_agree_3() { negative_number_views_agree::<3>(); }
+
+#[kani::proof]
+#[kani::unwind(7)]
+pub(super) fn negative_number_views_agree_4() { negative_number_views_agree::<4>(); }
+
 // ---------- C13-long: "--" + name [+ "=" + value] re-assembles to the original bytes ----------
 fn to_long_reassembles<const N: usize>() {
     let buf: [u8; N] = kani::any();
